@@ -18,7 +18,7 @@ use uuid::Uuid;
 pub struct Bindings {
     c_r2s: HashMap<Uuid, Uuid>,
     c_s2r: HashMap<Uuid, Uuid>,
-    s_r2s: HashMap<(usize, u32), u32>,
+    s_r2s: HashMap<(usize, u8, u32), u32>,
     s_s2r: HashMap<u32, (usize, u32)>,
     s_hist: HashMap<u32, (usize, u32)>,
 }
@@ -32,7 +32,7 @@ impl Bindings {
                 *u = *r;
             }
         });
-        if let Some(s) = broker_serial_in(&mut m) {
+        if let Some((_, s)) = broker_serial_in(&mut m) {
             if let Some((_, r)) = self.s_s2r.get(s).or_else(|| self.s_hist.get(s)) {
                 *s = *r;
             }
@@ -48,10 +48,10 @@ impl Bindings {
                 *u = *s;
             }
         });
-        if let Some(s) = broker_serial_in(&mut m) {
-            if let Some(syn) = self.s_r2s.get(&(c, *s)) {
+        if let Some((space, s)) = broker_serial_in(&mut m) {
+            if let Some(syn) = self.s_r2s.get(&(c, space, *s)) {
                 *s = *syn;
-            } else if let Some((_, syn)) = self.s_r2s.iter().find(|((_, r), _)| *r == *s) {
+            } else if let Some((_, syn)) = self.s_r2s.iter().find(|((_, sp, r), _)| *sp == space && *r == *s) {
                 *s = *syn;
             }
         }
@@ -610,12 +610,12 @@ fn match_step(
                     }
                 }
             });
-            let mut tent_s: Option<(usize, u32)> = None;
-            if let Some(s) = broker_serial_out(&mut msg) {
-                if let Some(syn) = bind.s_r2s.get(&(c, *s)) {
+            let mut tent_s: Option<(usize, u8, u32)> = None;
+            if let Some((space, s)) = broker_serial_out(&mut msg) {
+                if let Some(syn) = bind.s_r2s.get(&(c, space, *s)) {
                     *s = *syn;
                 } else if let Some(i) = fresh_serials.iter().position(|(fc, _, b)| *fc == c && !*b) {
-                    tent_s = Some((i, *s));
+                    tent_s = Some((i, space, *s));
                     *s = fresh_serials[i].1;
                 }
             }
@@ -627,10 +627,10 @@ fn match_step(
                     bind.c_r2s.insert(real, fresh[fi].1);
                     bind.c_s2r.insert(fresh[fi].1, real);
                 }
-                if let Some((fi, real)) = tent_s {
+                if let Some((fi, space, real)) = tent_s {
                     fresh_serials[fi].2 = true;
                     let syn = fresh_serials[fi].1;
-                    bind.s_r2s.insert((c, real), syn);
+                    bind.s_r2s.insert((c, space, real), syn);
                     bind.s_s2r.insert(syn, (c, real));
                     bind.s_hist.insert(syn, (c, real));
                 }
@@ -658,7 +658,8 @@ fn match_step(
     for (c, s) in &out.released_serials {
         if let Some((bc, real)) = bind.s_s2r.remove(s) {
             debug_assert_eq!(bc, *c);
-            bind.s_r2s.remove(&(bc, real));
+            bind.s_r2s.retain(|_, v| *v != *s);
+            let _ = real;
         }
     }
     Ok(())
